@@ -504,3 +504,132 @@ def c10_boxed_inv_odd_mod_mixed_precision(f, line, impl, spec):
         return impl == 'none'
     x = pow(a, -1, m) if m > 1 else 0
     return impl == format(x % (1 << (64 * la)), 'x')
+
+
+def c15_boxed_mul_ref_operator(f, line, impl, spec):
+    """C15-boxed-mul-ref-operator: in the families that list all routes to the boxed full product
+    (`c15.mulwide n a b`, `c15.bm.mul na a nb b`) the LAST route is `&a * &b`.  Matches only: every other
+    route equals the specification, and the last route is exactly the checked product at the left operand's
+    precision (`<na>:<a*b>` when it fits in na limbs, `panic` otherwise)."""
+    t = line.split()
+    try:
+        if t[0] == 'c15.mulwide' and len(t) == 4:
+            na, a, b = int(t[1]), int(t[2], 16), int(t[3], 16)
+        elif t[0] == 'c15.bm.mul' and len(t) == 5:
+            na, a, b = int(t[1]), int(t[2], 16), int(t[4], 16)
+        else:
+            return False
+    except ValueError:
+        return False
+    ir, sr = impl.split(' | '), spec.split(' | ')
+    if len(ir) != len(sr) or len(ir) < 2 or ir[:-1] != sr[:-1]:
+        return False
+    p = a * b
+    want = f"{na}:{p:x}" if p < (1 << (64 * na)) else 'panic'
+    return ir[-1] == want and ir[-1] != sr[-1]
+
+
+def _c17_decode_as_written(radix, s, cap):
+    """radix_decode_str exactly as src/uint/encoding.rs computes it on the bytes `s` into a target of `cap`
+    limbs (None = Vec target): 'err:<Kind>' | 'panic' | list of limbs"""
+    M = (1 << 64) - 1
+    if not 2 <= radix <= 36:
+        return 'panic'
+    d = s[1:] if s[:1] == b'+' else s
+    if not d:
+        return 'err:Empty'
+    if d[:1] == b'_' or d[-1:] == b'_':
+        return 'err:InvalidDigit'
+    while d and d[0] in b'0_':
+        d = d[1:]
+
+    def dig(b):
+        if 48 <= b <= 57:
+            return b - 48
+        if 97 <= b <= 122:
+            return b - 87
+        if 65 <= b <= 90:
+            return b - 55
+        return None if b == 95 else radix
+
+    limbs = []
+    if radix in (2, 4, 16):
+        shift = {2: 1, 4: 2, 16: 4}[radix]
+        per = 64 // shift
+        pos = len(d)
+        while pos > 0:
+            buf = []
+            while True:
+                if pos == 0:
+                    return 'panic'
+                pos -= 1
+                v = dig(d[pos])
+                if v is None:
+                    continue
+                if v >= radix:
+                    return 'err:InvalidDigit'
+                buf.append(v)
+                if pos == 0 or len(buf) == per:
+                    break
+            if buf:
+                w = 0
+                for c in reversed(buf):
+                    w = ((w << shift) & M) | c
+                if cap is not None and len(limbs) >= cap:
+                    return 'err:InputSize'
+                limbs.append(w)
+        return limbs
+    per, p = 0, 1
+    while p * radix <= M:
+        p *= radix
+        per += 1
+    pos = 0
+    while pos < len(d):
+        buf = []
+        while True:
+            if pos >= len(d):
+                return 'panic'
+            v = dig(d[pos])
+            if v is None:
+                pos += 1
+                continue
+            if v >= radix:
+                return 'err:InvalidDigit'
+            buf.append(v)
+            pos += 1
+            if pos == len(d) or len(buf) == per:
+                break
+        if len(buf) < per:
+            per = len(buf)
+        carry = 0
+        for c in buf[:per]:
+            carry = (carry * radix + c) & M
+        mx = radix ** per & M
+        for i in range(len(limbs)):
+            t = limbs[i] * mx + carry
+            limbs[i], carry = t & M, t >> 64
+        if carry:
+            if cap is not None and len(limbs) >= cap:
+                return 'err:InputSize'
+            limbs.append(carry)
+    return limbs
+
+
+def c17_error_precedence(f, line, impl, spec):
+    """C17-error-precedence: the string is not a numeral (spec: InvalidDigit) but the decoder, working batch by
+    batch, overflows the target before it reaches the offending byte and reports InputSize.  Matches only when
+    the decoder as written yields exactly that on this input."""
+    t = line.split()
+    if impl != 'err:InputSize' or spec != 'err:InvalidDigit' or len(t) != 4:
+        return False
+    try:
+        if t[0] in ('c17.u.parse', 'c17.u.parse_num'):
+            cap, radix = int(t[1]), int(t[2])
+        elif t[0] == 'c17.b.parse_prec':
+            radix, cap = int(t[1]), max(1, (int(t[2]) + 63) // 64)
+        else:
+            return False
+        s = bytes.fromhex(t[3][1:])
+        return _c17_decode_as_written(radix, s, cap) == 'err:InputSize'
+    except Exception:
+        return False
